@@ -3,8 +3,9 @@
 Decides, on the call-graph closure of the parse / build / open entry points: everything thrown is a
 std::exception (C20.throw); nothing terminates the process except the two exits the caller configured
 (C20.term); no exception can escape a noexcept function or a destructor (C20.noexcept); the wrapping
-catch sites are complete for std::exception (C20.wrap).  NOT decided: out-of-bounds reads, iterator
-arithmetic past the end, hangs, undefined behaviour - these need sanitizers and fuzzing.
+catch sites are complete for std::exception (C20.wrap).  search-and-replace loops restart beyond the
+inserted text (C20.search).  NOT decided: out-of-bounds reads, iterator arithmetic past the end, termination of loops in general,
+undefined behaviour - these need sanitizers and fuzzing.
 """
 import re
 
@@ -147,6 +148,62 @@ def run(chk):
             for t, o in zip(types, outcome):
                 if o.startswith("throw ") and not any(s_ in o for s_ in ("OpmInputError", "std::", "runtime_error", "logic_error", "invalid_argument")):
                     chk.violation(r_wrap, key + ":type", "%s: handler for %s throws %s" % (q, t, o), f["file"], tr["l"])
+    # ---- C20.search: search-and-replace loops make progress (a termination argument for the one loop shape that edits what it searches)
+    r_sr = chk.rule("C20.search", "a loop that searches a string until npos and edits the string in its body restarts the search beyond the inserted text, unless the inserted text is a literal that cannot contain the search literal", floor=2)
+    for f in fx.fns:
+        if not f.get("body"):
+            continue
+        for lp in walk_fn(f):
+            if lp["k"] not in ("While", "Do", "For") or lp.get("cond") is None or "npos" not in show(lp["cond"]):
+                continue
+            scope = [lp["cond"], lp["body"]]
+            finds, edits = [], []
+            for part in scope:
+                for x in walk(part):
+                    m, obj = meth(x)
+                    if m in ("find", "find_first_of", "find_first_not_of", "rfind") and obj is not None:
+                        finds.append((x, obj))
+                    elif m in ("replace", "insert") and obj is not None:
+                        edits.append((x, obj))
+            if not finds and not edits:
+                continue
+            key = "%s@%d" % (f["q"], lp["l"])
+            inside = f["q"] in closure
+            if not edits:
+                chk.instance(r_sr, key, nontrivial=False, sample=dict(function=f["q"], loop="search only", reachable=inside))
+                continue
+            ok, why = True, []
+            for e, eobj in edits:
+                args = e.get("a", [])
+                repl = args[-1] if args else None
+                rlit = [x["v"] for x in walk(repl) if x["k"] in ("Str",)] if repl is not None else []
+                rname = strip(repl).get("n") if repl is not None and strip(repl)["k"] == "Ref" else None
+                for fd, fobj in finds:
+                    if show(strip(fobj)) != show(strip(eobj)):
+                        continue
+                    fa = fd.get("a", [])
+                    needle = fa[0] if fa else None
+                    nlit = [x["v"] for x in walk(needle) if x["k"] == "Str"] if needle is not None else []
+                    start = fa[1] if len(fa) > 1 else None
+                    if rlit and nlit and all(nl not in rl for nl in nlit for rl in rlit):
+                        why.append("the inserted literal %r cannot contain the search literal %r" % (rlit[0], nlit[0]))
+                        continue
+                    adv = False
+                    if start is not None:
+                        for b in walk(start):
+                            if b["k"] == "Bin" and b.get("op") == "+":
+                                for side in b["c"]:
+                                    m2, o2 = meth(strip(side))
+                                    if m2 in ("size", "length") and o2 is not None and (rname is None or strip(o2).get("n") == rname):
+                                        adv = True
+                    if adv:
+                        why.append("search restarts at `%s`" % show(start)[:60])
+                    else:
+                        ok = False
+                        why.append("search restarts at `%s`, not beyond the text just inserted (`%s`)" % (show(start)[:60] if start is not None else "the beginning", show(repl)[:40] if repl is not None else "?"))
+            chk.instance(r_sr, key, sample=dict(function=f["q"], reachable_from_entry_points=inside, argument=why))
+            if not ok:
+                chk.violation(r_sr, key, "%s: %s - when the replacement contains the search string the loop never ends (%s)" % (f["q"], "; ".join(w for w in why if "not beyond" in w), "reachable from the parse entry points" if inside else "library utility"), f["file"], lp["l"])
     chk.assumptions += [
         "call graph from resolved callee names (overloads merged, every override of a same-named virtual method included): an over-approximation of reachability",
         "memory safety, hangs and undefined behaviour are not analysed",
